@@ -1,59 +1,2 @@
-(* GENERATED by tools/dump_c12.py (expression translator of tools/py2v.py) from the current source text of rig/machine_control/regions.py -- do not edit. *)
-From Coq Require Import ZArith Bool List.
-Import ListNotations.
-Open Scope Z_scope.
-
-(* rig/machine_control/regions.py : get_region_for_chip, line 20 *)
-Definition get_region_for_chip (x : Z) (y : Z) (level : Z) :=
-  
-  let shift := (Z.sub (6) (Z.mul (2) level)) in
-  let bit := (Z.add (Z.land (Z.shiftr x shift) (3)) (Z.mul (4) (Z.land (Z.shiftr y shift) (3)))) in
-  let mask := (Z.lxor (65535) (Z.sub (Z.shiftl (4) shift) (1))) in
-  let nx := (Z.land x mask) in
-  let ny := (Z.land y mask) in
-  let region := (Z.lor (Z.lor (Z.lor (Z.shiftl nx (24)) (Z.shiftl ny (16))) (Z.shiftl level (16))) (Z.shiftl (1) bit)) in
-  region.
-
-Definition get_region_for_chip_default_level : Z := (3).
-
-(* rig/machine_control/regions.py : RegionCoreTree.__init__ self.scale, line 116 *)
-Definition tree_scale (level : Z) : Z :=
-  (Z.pow (4) (Z.sub (4) level)).
-
-(* rig/machine_control/regions.py : RegionCoreTree.__init__ self.shift, line 117 *)
-Definition tree_shift (level : Z) : Z :=
-  (Z.sub (6) (Z.mul (2) level)).
-
-(* rig/machine_control/regions.py : RegionCoreTree.__init__ self.locally_selected, line 122 *)
-Definition n_cores : Z := (18).
-
-(* rig/machine_control/regions.py : RegionCoreTree.__init__ self.subregions, line 127 *)
-Definition n_children : Z := (16).
-
-(* rig/machine_control/regions.py : RegionCoreTree.add_core range check, line 184 *)
-Definition add_core_out_of_range (x : Z) (y : Z) (p : Z) (base_x : Z) (base_y : Z) (scale : Z) : bool :=
-  (orb (orb (Z.ltb p (0)) (Z.gtb p (17))) (orb (orb (Z.ltb x base_x) (Z.geb x (Z.add base_x scale))) (orb (Z.ltb y base_y) (Z.geb y (Z.add base_y scale))))).
-
-(* rig/machine_control/regions.py : RegionCoreTree.add_core subregion, line 190 *)
-Definition subregion_index (x : Z) (y : Z) (shift : Z) : Z :=
-  (Z.add (Z.land (Z.shiftr x shift) (3)) (Z.mul (4) (Z.land (Z.shiftr y shift) (3)))).
-
-(* rig/machine_control/regions.py : RegionCoreTree.add_core elif, line 195 *)
-Definition add_core_not_selected (selected_p : Z) (subregion : Z) : bool :=
-  (negb (negb (Z.eqb (Z.land selected_p (Z.shiftl (1) subregion)) 0))).
-
-(* rig/machine_control/regions.py : RegionCoreTree.add_core |=, line 194 *)
-Definition add_core_select (selected_p : Z) (subregion : Z) : Z :=
-  (Z.lor selected_p (Z.shiftl (1) subregion)).
-
-(* rig/machine_control/regions.py : RegionCoreTree.add_core final test, line 213 *)
-Definition add_core_is_full (selected_p : Z) (level : Z) : bool :=
-  (andb (Z.eqb selected_p (65535)) (negb (Z.eqb level (0)))).
-
-(* rig/machine_control/regions.py : RegionCoreTree.get_regions_and_coremasks region_code, line 144 *)
-Definition region_code (base_x : Z) (base_y : Z) (level : Z) : Z :=
-  (Z.lor (Z.lor (Z.shiftl base_x (24)) (Z.shiftl base_y (16))) (Z.shiftl level (16))).
-
-(* rig/machine_control/regions.py : RegionCoreTree.get_regions_and_coremasks child order `(4 * x + y for y in range(4) for x in range(4))`, line 162 *)
-Definition child_order : list Z :=
-  [(0); (4); (8); (12); (1); (5); (9); (13); (2); (6); (10); (14); (3); (7); (11); (15)].
+(* translation of GenRegions failed: dumper failed: Unsupported: RegionCoreTree.add_core subregion: expression mentions ['int'], the model expects only ['x', 'y', 'shift']
+ *)
